@@ -66,6 +66,21 @@ example :
       Py.extractAll e V = .ok [1, 1] := by
   refine ⟨by decide, by decide, by decide, by decide⟩
 
+-- non-vacuity with `VectorPowerSum` nodes: (y ** 1).sum() − (y ** 0).sum() = y[0] + y[1] − 2
+example :
+    let y : VVar := ⟨"y", 2, [⟨"y[0]", 3⟩, ⟨"y[1]", 4⟩]⟩
+    let e : Expr := .bin .sub (.powSum y 1) (.powSum y 0)
+    let V := ["y[0]", "y[1]"]
+    V.Nodup ∧ VarsIn V e ∧ shortcutInv V e = true ∧
+      Py.extractAll e V = .ok [1, 1] ∧ Py.extractConstantTerm e = .ok (-2) := by
+  intro y e V
+  have hf : Py.fastBinop V .sub (.powSum y 1) (.powSum y 0) = .ok none := by
+    unfold Py.fastBinop; simp [pure, Except.pure]
+  refine ⟨by decide, by unfold VarsIn; decide, by decide, ?_, ?_⟩
+  · simp [e, V, y, extractAll, hf, isLinear, degree, ratNat, coeffsGeneral, walk, bind, Except.bind,
+      addName, varIndex, varIndexFrom, addAt, walkVars]
+  · simp [e, y, extractConstantTerm, isLinear, degree, ratNat, constTerm, bind, Except.bind, pure, Except.pure]
+
 /-- the statement in "for every well-formed linear expression" form: the extraction does not raise
     (`extractWF`: rational constants, **no division by the literal `Constant(0)`** — there Python
     raises `ZeroDivisionError`, `Py.extractAll = .error .zeroDiv` —, coefficient arrays as long as
